@@ -71,7 +71,7 @@ def run_m6a(rng, tier, case):
     T = 6 if tier == 'quick' else 8
     freq, unit, stepf = gen.pick(rng, [('h', 'h', 1.), ('h', 'h', 1.), ('30min', 'h', 0.5), ('2h', 'h', 2.), ('h', 'd', 1 / 24.), ('15min', 'min', 15.), ('d', 'h', 24.)])
     MRs = int(gen.pick(rng, [0, 0, 2, 3, 4, 4, T + 1, T + 3])); MDs = int(gen.pick(rng, [0, 0, 2, 3, T + 2]))      # (also limits longer than the horizon)
-    Rs, Fs = gen.pick(rng, [(0, 1), (0, 2), (0, 3), (1, 0), (2, 0), (4, 0), (0, 0)])
+    Rs, Fs = gen.pick(rng, [(0, 1), (0, 2), (0, 3), (1, 0), (2, 0), (4, 0), (0, 0), (0, T + 2), (0, 2 * T - 1), (T + 1, 0)])      # (also states that have lasted longer than the horizon)
     if MDs > 1 and not ((Fs == 0) ^ (Rs == 0)):
         Rs, Fs = (0, 2)
     sc = gen.pick(rng, [0., 0., 1.])
